@@ -618,6 +618,28 @@ func (e *Exec) modLocs(clauses []Clause, env *SpecEnv) []modLoc {
 				}
 				continue
 			}
+			if x.Fun == "anyfield" && len(x.Args) == 2 {
+				// anyfield(T, f): field f of every object of struct type T (coarse frame of whole-structure operations)
+				tid, _ := x.Args[0].(*SIdent)
+				fid, _ := x.Args[1].(*SIdent)
+				if tid == nil || fid == nil {
+					e.specFail("anyfield(T, f)")
+				}
+				t := e.resolveType(env.tpkg, tid.Name)
+				found := false
+				e.allFields(t, func(owner types.Type, f *types.Var) {
+					if f.Name() == fid.Name {
+						found = true
+						key := fieldKey(owner, f.Name())
+						e.heapInit(key, f.Type())
+						out = append(out, modLoc{key: key, any: true})
+					}
+				})
+				if !found {
+					e.specFail("anyfield: no field %s in %s", fid.Name, tid.Name)
+				}
+				continue
+			}
 			if x.Fun == "anyelems" && len(x.Args) == 1 {
 				id, _ := x.Args[0].(*SIdent)
 				if id == nil {
